@@ -238,6 +238,20 @@ META["C17"] = {
     "level_note": "trusts testing/synctest (the databases run real inside the bubble on a scratch directory), the recording tracer",
 }
 
+META["C16"] = {
+    "budget": {"quick": 40, "thorough": 900},
+    "stall_s": 120,
+    "rule": "one run = a generated source machine (schema, single-caller history incl. queued, canceled, auto, check and Exception transitions) with the real telemetry tracer, a simulated connection, server.AcceptConn and the real am-dbg Debugger machine headless on a tcell simulation screen (fake time covers its debounce), a plain recording tracer on the source as the reference, optionally a second plain client machine and check (Can*) logging, then 2..8 commands through the debugger's own states (ScrollToTx / Fwd / Back / Fwd+Back / ToggleTool with one of six transaction filters), then in a third of the runs an export and an import into a second debugger; non-trivial = at least one transition traced; distinct = distinct plans",
+    "components": {"real": MACHINE_REAL + ["pkg/telemetry/dbg (tracer, net/rpc client)", "tools/debugger (Debugger machine, parsing, cursor handlers) on a tcell SimulationScreen", "tools/debugger/server (RPC server, Client lookups)"], "stub": ["the telemetry connection is the simulated network with instant delivery (its scheduling is not what is being explored here)", "the export action is invoked through the verif-tagged VerifExport (the modal dialog is not driven); the group filter (SkipOutGroup) and the RPC-machine/disconnected client-list filters are not exercised"]},
+    "assumptions": [
+        "the package-level queue in dbg_server.go allows one debugger per process at a time: workers run their bubbles strictly one after another",
+        "queued-mutation pseudo records are excluded from the N-th-transition correspondence by their flag",
+    ],
+    "probes": ["filter-toggled", "filter-active", "export-import"],
+    "level_text": "seeded search over telemetry streams and command sequences: the N-th executed record carries the clocks, activity and flags of the N-th traced transition, derived data (added/removed states, time sum and diff, error index) follows from consecutive records, TxIndex/TxAtQueueTick/TxAtMachTime/TxAtHTime/HadErrSinceTx equal a linear scan, ScrollToTx/Fwd/Back move the cursor over shown transitions only and Fwd+Back returns, no shown transition falls under an active filter, the cursor never rests on a hidden one after a filter toggle, an exported session imports to the same records, derived data and error index",
+    "level_note": "trusts testing/synctest, the tcell simulation screen, the recording tracer",
+}
+
 NOT_YET = "check not built yet in this session (planned, see DESIGN.md section 5)"
 NOT_APPLICABLE = {
     "C19": "no schedule, clock, fault or multi-party behaviour: a static well-formedness scan of schema literals plus an exhaustive breadth-first enumeration of reachable active sets, i.e. bounded model checking, not deterministic simulation (DESIGN.md section 6)",
